@@ -75,7 +75,12 @@ func (c *RawSubstrateConfig) Validate() error {
 // raw chain config
 func NewSubstrateConfig(chainConfig map[string]interface{}) (*SubstrateConfig, error) {
 	var c RawSubstrateConfig
-	err := mapstructure.Decode(chainConfig, &c)
+	err := chain.ValidateDomainID(chainConfig)
+	if err != nil {
+		return nil, err
+	}
+
+	err = mapstructure.Decode(chainConfig, &c)
 	if err != nil {
 		return nil, err
 	}
